@@ -35,7 +35,7 @@ def gen_fn(r, v, weights):
     return req, agent
 
 
-def io_faults(ctx, r, prefer_big=False, prop="C10", torn=False, post_oracle=None):
+def io_faults(ctx, r, prefer_big=False, prop="C10", torn=False, post_oracle=None, only=None):
     """the command's k-th (and every later) write / fsync / rename on the store's files returns an error (disk full, I/O error) instead of being
     carried out: a command that then exits non-zero must have left the store as it was; one that exits 0 must have done all of its work"""
     base, v, trace = crash.build_state(ctx, r, 8 + r.n(6), weights={"new_task": 50, "set": 30, "sequence": 10, "new_epic": 10})
@@ -52,6 +52,10 @@ def io_faults(ctx, r, prefer_big=False, prop="C10", torn=False, post_oracle=None
             return
         v.update(g0["graph"])
         label, argv, stdin = crash.multi_event_command(r, v)
+        for _ in range(200):         # a particular command kind was asked for
+            if not only or label in only:
+                break
+            label, argv, stdin = crash.multi_event_command(r, v)
         for _ in range(40):          # a batch larger than any buffer the writer may use
             if not prefer_big or "big-body" in label:
                 break
